@@ -8,3 +8,13 @@ func VDBG_Itoa() {
 	rt.Observe("s", s)
 	rt.Reach("end")
 }
+
+func VDBG_CL() {
+	rt.AllocLimit(1 << 20)
+	text := "INVITE sip:a@b SIP/2.0\r\nContent-Length: " + rt.Str("cl", "digit", 1, 12) + "\r\n\r\n"
+	m, err := parseText(text)
+	if err == nil {
+		_ = m.String()
+	}
+	rt.Reach("end")
+}
